@@ -34,7 +34,10 @@ def gen(pid, tier, rng, n=None, poison=None):
         nt = rng.randint(*NTHREADS[pid])
         # C10 / C11: some threads run their whole history inside a destructor during an unrelated unwind
         unw = [t for t in range(nt) if pid in ("C10", "C11") and rng.random() < 0.12]
-        hist = histgen.gen_history(rng, u, nthreads=nt, length=rng.randint(4, 14), profile=PROFILES[pid], pre=pre, unw=unw)
+        # a fifth of the histories are drawn with the profile of another history property (panic- / poison- / forget-heavy
+        # mixes this property's own profile rarely produces); the monitor evaluated stays this property's
+        prof = PROFILES[pid] if rng.random() < 0.8 else PROFILES[rng.choice(sorted(PROFILES))]
+        hist = histgen.gen_history(rng, u, nthreads=nt, length=rng.randint(4, 14), profile=prof, pre=pre, unw=unw)
         if not hist:
             hist = [(0, ("get",))]
         probes = []
